@@ -9,6 +9,7 @@ import (
 	"os"
 	"runtime"
 	"strconv"
+	"strings"
 	"sync"
 	"testing"
 	"testing/synctest"
@@ -329,4 +330,35 @@ collect:
 	g1 := runtime.NumGoroutine()
 	w.put(map[string]any{"kind": "watchstable", "impl": "adapter", "same_channel": same, "goroutine_growth": g1 - g0, "received": received, "expected": N + 1})
 	wt.Stop()
+
+	// watchers stopped while a notification is still on its way to the consumer: no forwarding goroutine stays behind
+	const cycles = 12
+	rev, _ = kv.Update("k", []byte("cycle-start"), rev)
+	for i := 0; i < cycles; i++ {
+		wc, err := kv.Watch("k")
+		if err != nil {
+			t.Fatal(err)
+		}
+		ch := wc.Updates()
+	initial:
+		for { // the current value and the end-of-initial-values marker
+			select {
+			case e := <-ch:
+				if e == nil {
+					break initial
+				}
+			case <-time.After(500 * time.Millisecond):
+				break initial
+			}
+		}
+		rev, _ = kv.Update("k", []byte("cycle-"+strconv.Itoa(i)), rev)
+		time.Sleep(40 * time.Millisecond) // delivered to the adapter, not read by the consumer
+		wc.Stop()
+	}
+	time.Sleep(200 * time.Millisecond)
+	buf := make([]byte, 1<<20)
+	buf = buf[:runtime.Stack(buf, true)]
+	left := strings.Count(string(buf), "natsWatcherAdapter).Updates")
+	w.put(map[string]any{"kind": "watchstable", "impl": "adapter-stop-with-notification-in-flight", "same_channel": true,
+		"goroutine_growth": left, "received": cycles, "expected": cycles})
 }
